@@ -335,6 +335,16 @@ def _weights_one(ctx, dim, scheme, shape, origin, axes):
     if w.shape != (math.prod(shape),) or not np.all(np.isfinite(w)):
         ctx.fail("weights-shape", f"{what}: weights shape {w.shape} / non-finite")
         return
+    # layout: the weight belongs to the node, not to its position in the flat array - the same grid described with
+    # its axes listed in reverse order (shape reversed with them) carries the same weight at the same node
+    perm = list(range(dim))[::-1]
+    try:
+        g_rev = UniformGrid(origin.copy(), axes[perm].copy(), np.array([shape[k] for k in perm], dtype=int), weight=scheme)
+        w_rev = np.asarray(g_rev.weights, dtype=float).reshape([shape[k] for k in perm]).transpose(perm)
+        ctx.close(w.reshape(shape), w_rev, 1e-12 * (np.max(np.abs(w)) + 1e-300), "weights-not-attached-to-nodes",
+                  f"{what}: weights differ from those of the same grid with the axes listed in reverse order")
+    except IndexError:
+        pass  # only the recorded Fourier2 2-D defect, reported above
     dev = abs(float(np.sum(w)) - vol) / vol
     _note(ctx, f"{scheme} dev/bound", dev / bound)
     if dev <= bound * (1 + 1e-12):
